@@ -699,7 +699,14 @@ class Node:
                 if rsock in self.tcp_sockets:
                     self.connection_logger.debug(
                         "received a TCP connection attempt")
-                    clientsocket, (ip, port) = rsock.accept()
+                    try:
+                        clientsocket, (ip, port) = rsock.accept()
+                    except socket.error as e:
+                        # e.g. out of file descriptors or the client is
+                        # already gone; must not end the connection thread
+                        self.connection_logger.warning(
+                            f"failed to accept a TCP connection: {e}")
+                        continue
                     clientsocket.setblocking(False)
                     self.connection_logger.debug(
                         f"new client TCP connection from {ip}:{port}")
@@ -714,7 +721,14 @@ class Node:
                 if rsock in self.sctp_sockets:
                     self.connection_logger.debug(
                         "received an SCTP connection attempt")
-                    clientsocket, (ip, port) = rsock.accept()
+                    try:
+                        clientsocket, (ip, port) = rsock.accept()
+                    except socket.error as e:
+                        # e.g. out of file descriptors or the client is
+                        # already gone; must not end the connection thread
+                        self.connection_logger.warning(
+                            f"failed to accept an SCTP connection: {e}")
+                        continue
                     clientsocket.setblocking(False)
                     self.connection_logger.debug(
                         f"new client SCTP connection from {ip}:{port}")
